@@ -333,7 +333,18 @@ impl<'a> LiveEvents<'a> {
         }
 
         // 2) Pull from the real parser
+        #[cfg(serde_saphyr_verif)]
+        let mut verif_pulls: u64 = 0;
         while let Some(item) = self.parser.next() {
+            // Verification hook H2: see skip_to_next_document. Each iteration either returns or
+            // skips one stream / document marker, so a healthy parse makes a handful.
+            #[cfg(serde_saphyr_verif)]
+            {
+                verif_pulls += 1;
+                if verif_pulls > 20_000_000 {
+                    panic!("serde_saphyr_verif liveness: next_impl skipped {verif_pulls} markers in a row");
+                }
+            }
             let (raw, span) = item.map_err(Error::from_scan_error)?;
             let location = location_from_span(&span);
 
@@ -817,7 +828,21 @@ impl<'a> LiveEvents<'a> {
 
         // Pull raw events from the parser until we see DocumentStart or EOF
         let mut past_document_end = false;
+        #[cfg(serde_saphyr_verif)]
+        let mut verif_pulls: u64 = 0;
         while let Some(item) = self.parser.next() {
+            // Verification hook H2 (only with `--cfg serde_saphyr_verif`): the recovery loop pulls at
+            // most one item per event of the skipped document; a loop that keeps pulling without
+            // reaching a boundary (the parser repeats a scan error for ever) never ends and touches
+            // neither the reader nor the char source. The marked panic is the simulator's
+            // deterministic liveness monitor for it.
+            #[cfg(serde_saphyr_verif)]
+            {
+                verif_pulls += 1;
+                if verif_pulls > 20_000_000 {
+                    panic!("serde_saphyr_verif liveness: skip_to_next_document pulled {verif_pulls} items");
+                }
+            }
             let (raw, span) = match item {
                 Ok(x) => x,
                 Err(scan_error) => {
